@@ -2,17 +2,22 @@ import Driver.C19
 import Driver.C20
 import Driver.C09
 import Driver.Frame
+import Driver.Seg
 /-! Line-protocol driver: one operation per input line, one canonical answer per output line. -/
 
 structure St where
   c20 : Driver.C20.S := {}
   inf : Cql.Inflight.S := Cql.Inflight.init 0 0
   z : Driver.Frame.Z := {}
+  zs : Driver.Seg.Z := {}
 
 def step (st : St) (line : String) : St × String :=
   match (line.trimAscii.toString.splitOn " ").filter (· ≠ "") with
   | "c19" :: args => (st, Driver.C19.handle args)
   | "frame" :: args => let (z, o) := Driver.Frame.handle st.z ("frame" :: args); ({ st with z := z }, o)
+  | "crc" :: args => let (z, o) := Driver.Seg.handle st.zs ("crc" :: args); ({ st with zs := z }, o)
+  | "zs" :: args => let (z, o) := Driver.Seg.handle st.zs ("zs" :: args); ({ st with zs := z }, o)
+  | "seg" :: args => let (z, o) := Driver.Seg.handle st.zs ("seg" :: args); ({ st with zs := z }, o)
   | "prim" :: args => let (z, o) := Driver.Frame.handle st.z ("prim" :: args); ({ st with z := z }, o)
   | "z" :: args => let (z, o) := Driver.Frame.handle st.z ("z" :: args); ({ st with z := z }, o)
   | "inf" :: args => let (s, o) := Driver.C09.handle st.inf args; ({ st with inf := s }, o)
